@@ -152,6 +152,18 @@ def run_merge_case(ctx, shard, i, rng):
                     c.feature("via:cli-merge")
                     if r.exit_code != 0:
                         raise (r.exception or RuntimeError(r.output[-300:]))
+                elif x % 4 == 2 and not mixed:
+                    # dtypes override + append into a file that already holds another collection
+                    make_cooler(out + "::/bystander", [["z", [0, 4, 8]]], {(0, 1): 5}, mode="a")
+                    by0 = h5state.digest_uri(out, "/bystander")
+                    cooler.merge_coolers(out, [uris[p] for p in perm], mergebuf=mb, mode="a", dtypes={"count": np.int64},
+                                         columns=["count", "score"] if two else None)
+                    c.feature("option:dtypes-override+append")
+                    with h5py.File(out, "r") as f:
+                        c.check(str(f["pixels/count"].dtype) == "int64", "merge-dtypes-override-ignored",
+                                f"dtypes={{'count': int64}} requested but count is stored as {f['pixels/count'].dtype}")
+                    c.check(h5state.digest_uri(out, "/bystander") == by0, "merge-append-changed-bystander",
+                            "merging into an existing file (mode='a') changed another collection of that file")
                 else:
                     cooler.merge_coolers(out, [uris[p] for p in perm], mergebuf=mb,
                                          columns=["count", "score"] if two else None)
@@ -168,7 +180,7 @@ def run_merge_case(ctx, shard, i, rng):
                                 "merged extra column != element-wise sum")
                 with h5py.File(out, "r") as f:
                     sm = f.attrs["sum"]
-                    dg = h5state.content_digest(f["/"])
+                    dg = h5state.content_digest(f["/"], skip_cols=(("pixels", "count"),)) + repr(f["pixels/count"][:].tolist())
                 c.check(float(sm) == float(sum(sum(P.values()) for P in Ps)), "merge-sum-attr",
                         f"sum attribute {sm} != sum of input totals {sum(sum(P.values()) for P in Ps)}")
                 c.check(cooler.Cooler(out).storage_mode == ("symmetric-upper" if symm else "square"),
